@@ -3,6 +3,7 @@ package main
 import (
 	"fmt"
 	"go/ast"
+	"go/token"
 	"go/types"
 	"os"
 	"regexp"
@@ -212,12 +213,20 @@ func c10R3(r *Run, li *c10LaxInfo) {
 	r.Pass("summary", "-", fmt.Sprintf("%d functions; %d sites identical, %d identical after drift rewrites, %d covered by drift allowances", res.Functions, res.Matched, matchedAfter, allowed))
 	// the type variables the fork dispatches on are what the rewrites claim
 	c10TypeVars(r)
+	c10R3Items(r, res, up.Fset)
 	if os.Getenv("CTVERIF_C10_DEBUG") != "" {
 		for _, s := range res.OnlyUp {
 			fmt.Printf("UP   %v %s: %s\n", s.match, s.Fn, s.Text)
 		}
 		for _, s := range res.OnlyFork {
 			fmt.Printf("FORK %v %s: %s\n", s.match, s.Fn, s.Text)
+		}
+		fmt.Println("items matched:", res.ItemsMatched)
+		for _, s := range res.ItemsOnlyUp {
+			fmt.Printf("IUP   %s: %s\n", s.Fn, s.Text)
+		}
+		for _, s := range res.ItemsOnlyFork {
+			fmt.Printf("IFORK %s: %s\n", s.Fn, s.Text)
 		}
 	}
 }
@@ -256,4 +265,148 @@ func c10TypeVars(r *Run) {
 			r.Fail("typevar:"+k, "-", "undecided: package variable "+k+" not found")
 		}
 	}
+}
+
+// ---- whole-function items: branch conditions and tracked assignments ----------
+//
+// Sites only see the conditions that enclose or precede a rejection / return.
+// A slip in a *value computation* (`ret.Year() >= 2050` → `> 2050` before
+// `ret = ret.AddDate(-100, 0, 0)`) leaves every site unchanged.  Therefore the
+// multiset of all branch conditions of a function (if / for / range / switch
+// and type-switch clauses; comparison orientation canonical) and the multiset of
+// assignments to named results and to variables that flow into returned values
+// must also agree with encoding/asn1, after the same partial evaluation to
+// strict mode, the site rewrites above, the item rewrites below, and up to the
+// counted allowances below.
+
+type c10ItemAllow struct {
+	Name, Fn, Side string
+	Text           string // exact normal form of the item
+	Max            int    // at most this many items of the function may use the entry
+	Class, Reason  string
+}
+
+// applied to upstream items (after the textual rewrites of c10Rewrites)
+var c10ItemRewrites = []c10Rewrite{
+	{"IsExported", "", regexp.MustCompile(`!\((.*)\.IsExported\(\)\)`), `("" != ${1}.PkgPath)`, "", "equivalent", "reflect.StructField.IsExported() is PkgPath == \"\" (go1.17 API)"},
+	{"tag-parts-loop", "parseFieldParameters", c10Lit(`for((0 < len(P0)))`), `range(strings.Split(P0, ","))`, "", "equivalent", "strings.Cut loop (go1.20) and strings.Split visit the same parts"},
+}
+
+var c10ItemAllows = []c10ItemAllow{
+	{"base128-leading-0x80", "parseBase128Int", "upstream", `cond ((0 == L1) && (128 == P0[R1]))`, 1, "ACCEPTANCE", "condition of the minimality check the fork lacks (see drift:base128-leading-0x80:guard)"},
+	{"nil-target", "UnmarshalWithParams", "upstream", `cond ((22 != reflect.ValueOf(P1).Kind()) || reflect.ValueOf(P1).IsNil())`, 1, "api-misuse", "condition of upstream's invalidUnmarshalError (see drift:nil-target:guard)"},
+	{"set-of-sorting", "makeBody", "upstream", `cond P1.set`, 1, "marshal", "upstream chooses the sorting setEncoder for SET OF (see drift:set-of-sorting:guard)"},
+	{"set-type-name", "makeField", "upstream", `cond ((17 == L1) && !(P1.set))`, 1, "marshal", "upstream (go1.15) turns on params.set for slice types named …SET so that they are sorted on marshal; the fork has no sorting, so nothing to turn on"},
+	{"set-type-name", "makeField", "upstream", `asgn P1.set = true`, 1, "marshal", "same"},
+	{"tag-parts-loop", "parseFieldParameters", "upstream", `asgn L1, P0, _ = strings.Cut(P0, ",")`, 1, "equivalent", "upstream advances through the tag string with strings.Cut, the fork ranges over strings.Split"},
+	{"lax-tag", "parseFieldParameters", "fork", `cond sw()∈{("lax" == L1)}`, 1, "documented", "the fork's \"lax\" tag part (C10.R1:tag-lax checks what it does)"},
+	{"err1-style", "parseField", "fork", `cond (L1 == nil)`, 3, "equivalent", "the fork stores through reflect only when the parse succeeded (OID, BIT STRING, time: `if err1 == nil { v.Set(…) }; err = err1`) where upstream assigns value and error in one statement; the error is returned either way (sites match)"},
+	{"error-text", "(StructuralError).Error", "fork", `cond ("" != RCV.Field)`, 1, "diagnostic", "the fork prefixes the field name"},
+	{"error-text", "(StructuralError).Error", "fork", `asgn L1 = (RCV.Field + ": ")`, 1, "diagnostic", "same"},
+	{"error-text", "(SyntaxError).Error", "fork", `cond ("" != RCV.Field)`, 1, "diagnostic", "same"},
+	{"error-text", "(SyntaxError).Error", "fork", `asgn L1 = (RCV.Field + ": ")`, 1, "diagnostic", "same"},
+	{"oid-string", "(ObjectIdentifier).String", "fork", `asgn L1 = (L1 + ".")`, 1, "equivalent", "string concatenation where upstream uses strings.Builder (its WriteByte/Write calls are allowed as sites)"},
+	{"oid-string", "(ObjectIdentifier).String", "fork", `asgn L1 = (L1 + strconv.Itoa(L2))`, 1, "equivalent", "same"},
+	{"four-digits", "appendFourDigits", "fork", `cond range(L1)`, 1, "equivalent", "digit loop where upstream is unrolled (go1.20); marshal only"},
+	{"four-digits", "appendFourDigits", "fork", `asgn L1[(3 - L2)] = (48 + byte((P1 % 10)))`, 1, "equivalent", "same"},
+	{"four-digits", "appendFourDigits", "fork", `asgn P1 = (P1 / 10)`, 1, "equivalent", "same"},
+}
+
+func c10R3Items(r *Run, res *fdResult, upFset *token.FileSet) {
+	used := map[string]int{}
+	names := map[string][2]string{}
+	override := map[string]bool{} // item rewrites replace the site rewrite of the same name (canonical orientation)
+	for _, rw := range c10ItemRewrites {
+		override[rw.Name] = true
+	}
+	for i := range res.ItemsOnlyUp {
+		s := &res.ItemsOnlyUp[i]
+		for li, list := range [][]c10Rewrite{c10Rewrites, c10ItemRewrites} {
+			for _, rw := range list {
+				if rw.Re == nil || (rw.Fn != "" && rw.Fn != s.Fn) || (li == 0 && override[rw.Name]) {
+					continue
+				}
+				if t := rw.Re.ReplaceAllString(s.Text, rw.Repl); t != s.Text {
+					s.Text = t
+					used[rw.Name]++
+					names[rw.Name] = [2]string{rw.Class, rw.Reason}
+				}
+			}
+		}
+	}
+	after := 0
+	for i := range res.ItemsOnlyUp {
+		for j := range res.ItemsOnlyFork {
+			u, f := &res.ItemsOnlyUp[i], &res.ItemsOnlyFork[j]
+			if !u.match && !f.match && u.Fn == f.Fn && u.Text == f.Text {
+				u.match, f.match = true, true
+				after++
+				break
+			}
+		}
+	}
+	type diff struct {
+		where string
+		items []string
+	}
+	diffs := map[string]*diff{} // kind:fn
+	budget := make([]int, len(c10ItemAllows))
+	allowed := 0
+	report := func(s fdSite, side, where string) {
+		if s.match {
+			return
+		}
+		for i, a := range c10ItemAllows {
+			if a.Fn == s.Fn && a.Side == side && a.Text == s.Text && budget[i] < a.Max {
+				budget[i]++
+				used[a.Name]++
+				names[a.Name] = [2]string{a.Class, a.Reason}
+				allowed++
+				return
+			}
+		}
+		k := "conditions:" + s.Fn
+		if strings.HasPrefix(s.Text, "asgn ") {
+			k = "assignments:" + s.Fn
+		}
+		d := diffs[k]
+		if d == nil {
+			d = &diff{where: where}
+			diffs[k] = d
+		}
+		if side == "fork" {
+			d.where = where
+		}
+		d.items = append(d.items, side+" only: `"+s.Text+"`")
+	}
+	for _, s := range res.ItemsOnlyUp {
+		report(s, "upstream", upFset.Position(s.Pos).String())
+	}
+	for _, s := range res.ItemsOnlyFork {
+		report(s, "fork", r.P.Pos(s.Pos))
+	}
+	for _, fn := range res.Compared {
+		for _, kind := range [][2]string{{"conditions", "branch conditions (if / for / range / switch clauses)"}, {"assignments", "assignments to named results and to variables that flow into returned values"}} {
+			d := diffs[kind[0]+":"+fn]
+			if d == nil {
+				r.Pass(kind[0]+":"+fn, "-", "the strict residual of "+fn+" has the same multiset of "+kind[1]+" as encoding/asn1 (modulo the drift table)")
+				continue
+			}
+			n := len(d.items)
+			if n > 4 {
+				d.items = append(d.items[:4], fmt.Sprintf("… and %d more", n-4))
+			}
+			r.Fail(kind[0]+":"+fn, d.where, fmt.Sprintf("the %s of the fork's %s (strict residual) and of encoding/asn1 differ in %d item(s) that the drift table does not list: %s", kind[1], fn, n, strings.Join(d.items, " || ")))
+		}
+	}
+	r.Floor("conditions and assignments identical after normalisation", res.ItemsMatched, 400)
+	var ks []string
+	for k := range used {
+		ks = append(ks, k)
+	}
+	sort.Strings(ks)
+	for _, k := range ks {
+		r.Pass("drift-items:"+k, "-", fmt.Sprintf("documented difference [%s] used for %d condition/assignment item(s): %s", names[k][0], used[k], names[k][1]))
+	}
+	r.Pass("summary-items", "-", fmt.Sprintf("%d conditions/assignments identical, %d identical after drift rewrites, %d covered by counted drift allowances", res.ItemsMatched, after, allowed))
 }
